@@ -164,3 +164,38 @@ func zzH_C08_reader_key_full_width(t *zzT) {
 	}
 	t.Reach("refused")
 }
+
+// C08 "encoding is deterministic … IDs are unchanged by re-encoding" when several goroutines encode at the same
+// time (p2p handlers, RPC, the consensus loop all encode): two goroutines encode different values concurrently;
+// each result equals the sequential encoding of its own value, for all interleavings within the scheduling
+// budget, with the race monitor on (encoders must not share scratch state).
+// (seed C08-8 hoisted the varint scratch buffer into a package-level array shared by all Writers.)
+//
+//zz:opt loop=64 sched=2 join=1 race=1 racereport=1 schedule=1 blockfree=0
+func zzH_C08_concurrent_encode(t *zzT) {
+	x, y := uint64(t.U16("x")), uint64(t.U16("y"))
+	sx, sy := int64(int8(t.U8("sx"))), int64(int8(t.U8("sy")))
+	enc := func(u uint64, s int64) []byte {
+		w := NewWriter()
+		w.WriteUInt(1, u)
+		w.WriteInt(2, s)
+		return w.Result()
+	}
+	wantX, wantY := enc(x, sx), enc(y, sy)
+	reps := 1
+	if !t.Symbolic() {
+		reps = 2000
+	}
+	for r := 0; r < reps; r++ {
+		var gotX []byte
+		done := make(chan struct{})
+		go func() {
+			gotX = enc(x, sx)
+			close(done)
+		}()
+		gotY := enc(y, sy)
+		<-done
+		t.Assert(bytes.Equal(gotX, wantX) && bytes.Equal(gotY, wantY), "concurrent encoders produce the sequential encodings of their own values")
+	}
+	t.Reach("end")
+}
